@@ -21,6 +21,8 @@ ASSUMPTIONS = ["libxmlsec1/OpenSSL as installed and the 500-line driver tools/xm
                "fixture keys under fixtures/keys", "IdP metadata carries one signing certificate (k00)"]
 
 OUT = {"id-req-1": "/"}
+# ways in which a signature that is present can be invalid
+HOWS = ["digest", "sigvalue", "content", "sigvalue-empty", "sigvalue-blank", "digest-empty", "sigvalue-truncated"]
 
 
 def gen_cases(tier, seed):
@@ -33,12 +35,12 @@ def gen_cases(tier, seed):
             for enc in (0, 1):
                 for corr in corrs:
                     makers = ("idp", "kit") if corr == "valid" else ("kit",)
-                    for maker in makers:
+                    hows = [""] if corr == "valid" else HOWS
+                    for maker, how in itertools.product(makers, hows):
                         for k in range(n_ident):
-                            how = rng.choice(["digest", "sigvalue", "content"]) if corr != "valid" else ""
                             alg = rng.choice(sorted(xk.SIG_ALGS)) if maker == "kit" else "rsa-sha1"
-                            cid = "o%d%d%d-%s-%s-%s-%s-%d" % (wrs, was, waors, layout, "enc" if enc else "plain", corr, maker, k)
-                            cases.append({"id": cid, "sig": [wrs, was, waors, layout, enc, corr, maker],
+                            cid = "o%d%d%d-%s-%s-%s%s-%s-%d" % (wrs, was, waors, layout, "enc" if enc else "plain", corr, ":" + how if how else "", maker, k)
+                            cases.append({"id": cid, "sig": [wrs, was, waors, layout, enc, corr, how, maker],
                                           "opts": [wrs, was, waors], "layout": layout, "enc": enc, "corr": corr,
                                           "maker": maker, "how": how, "alg": alg,
                                           "identity": gen.identity(random.Random("%s/%s" % (seed, cid)))})
@@ -64,10 +66,16 @@ def corrupt_signature(text, owner_ns, owner_local, how):
     d = xk.Doc(text)
     owner = d.find(owner_ns, owner_local)[0]
     sig = owner.child(xk.DS, "Signature")
-    if how == "sigvalue":
+    if how.startswith("sigvalue"):
         n = sig.child(xk.DS, "SignatureValue")
     else:
         n = sig.find(xk.DS, "DigestValue")[0]
+    if how.endswith("-empty"):
+        return d._splice(n.stag_end, n.etag_start, "").text()
+    if how.endswith("-blank"):
+        return d._splice(n.stag_end, n.etag_start, " \n ").text()
+    if how.endswith("-truncated"):
+        return d._splice(n.stag_end, n.etag_start, d.inner(n)[:40]).text()
     val = d.inner(n).decode()
     i = next(j for j, c in enumerate(val) if c.isalnum())
     flipped = val[:i] + ("B" if val[i] != "B" else "C") + val[i + 1:]
